@@ -47,6 +47,21 @@ claimed = {
    text="Decides the frame conditions the behavioural property rests on (necessary conditions, not probe equality over histories): every Encoder/Decoder field mutated on the codec path is re-initialised by Reset, every one-shot entry point resets before any work, caller maps are written only on a lookup miss, the encoder calls reflect setters only on values it allocated, input byte slices reach only bytes.NewReader, and Encode returns a buffer allocated in the call.",
    design_ref="DESIGN.md §3 C11",
    note="Does not decide byte-for-byte equality of a probe call against a fresh instance for all histories."),
+ "C03": dict(
+   technique="exact tag-set abstract interpretation of the dispatchers and scalar decoders over go/ssa against the frozen 256-entry Hessian 2.0 bytecode table; path rules on chunk loops and list loops",
+   text="Decides structural necessary conditions, not the behaviour: all 256 first octets resolve (first match, arm order honoured) to the reader of the production the specification assigns; every scalar decoder accepts every tag of every spec form and pulls exactly its payload; no fresh-tag read can follow a consumed octet that may have been that value's first octet; typed map/list headers read the type through the type reader; chunk buffers are sized from each chunk header; variable-length lists leave on the terminator. Equality of decodings across encodings is NOT decided.",
+   design_ref="DESIGN.md §3 C03, §3.0, Appendix A.1/A.3/A.7",
+   note="The frozen table (hlint/spec.go) is transcribed from the specification and trusted. Known finding: the compact date x4b is read as seconds where the grammar says minutes (see known_findings.json)."),
+ "C06": dict(
+   technique="static taint fixpoint over go/ssa (concrete types flowing into interface{} results), codec-pair octet agreement, loop-exit classification, error-flow at tag positions, reachability from the streaming entry points",
+   text="Decides structural necessary conditions, not equality of the n values: no internal carrier (reflect.Value, *_refHolder) can flow into the result of a documented decode entry point or into a returned container; per form the encoder's octets equal the octets the decoder pulls; container loops leave only through counter/flag/error/terminator; failed tag reads are errors; the streaming entry points never reset per-stream tables and no buffered reader wraps a caller-supplied stream.",
+   design_ref="DESIGN.md §3 C06, Appendix A.6/A.8",
+   note="ReadData/ReadList/ReadLenTagObject are exported internals (listed exception with reason)."),
+ "C10": dict(
+   technique="interval abstract interpretation of encodeDate/decodeDateValue over go/ssa: exactness guard, octet windows, unit agreement, overflow on the declared domain",
+   text="Decides structural necessary conditions, not the behaviour: the compact date form is reached only with a sub-second part proven {0} and a seconds value proven to fit 32 bits; the 8-octet form carries UnixMilli; encoder getter and decoder constructor agree on the unit per form; no arithmetic on the wire value can overflow on [year 1, year 9999]; UnixNano is not used; zero time ↔ null; time.Time is recognised before class-definition emission and by the struct-field dispatcher. Calendar arithmetic of package time is trusted.",
+   design_ref="DESIGN.md §3 C10",
+   note="Trusts time.UnixMilli/Unix/Nanosecond contracts."),
 }
 
 checks = []
